@@ -96,6 +96,9 @@ def rule_deal_with_axis(ctx):
         return out
     for p in ret_paths(ev):
         v = p.value
+        if v[0] == 'binop' and v[1] == '+' and v[2][0] == 'tuple' and len(v[2][1]) == 1 and v[3][0] == 'call' and T.call_name(v[3]) == '_get_axis_info':
+            # (obj,) + obj._get_axis_info(axis): the pair (position, name) of _get_axis_info appended to the object - the triple spelled as a concatenation
+            v = ('tuple', (v[2][1][0], ('item', v[3], 0), ('item', v[3], 1)))
         if not (v[0] == 'tuple' and len(v[1]) == 3):
             ctx.undecide('R3', '_deal_with_axis returns %s' % T.show(v)[:100])
             continue
